@@ -38,8 +38,8 @@ body = ['## 13. Mutation analysis', '',
         "repository's own suite already rejects is set aside; for the others the plain-build worker is built against the",
         'mutant and the quick-tier spaces mapped to the file run (16 shards, a worker stops at its first violation)',
         'until one reports it (the step-space and report spaces with a cap of 45 s per worker). To fit the time',
-        '`sim.go`, `load.go` and `forexpand.go` were taken at every second mutant and `simops.go` at every fourth; the',
-        'other files completely. The instrumented-build engines (the scheduler exploration of C05/C14) and the CLI',
+        '`sim.go`, `load.go` and `forexpand.go` were taken at every second mutant and `simops.go`, `compile.go` and',
+        '`parser.go` at every fourth; the other files completely. The instrumented-build engines (the scheduler exploration of C05/C14) and the CLI',
         'engine are not part of this measurement. Three mutants that first went unreported pointed at real gaps, which',
         'were closed before the table below was produced: the address of a WarriorRead report was not compared with',
         'the cells the operands read (e1: `read-report-address`); the read-recording StateRecorder was only checked',
